@@ -56,12 +56,13 @@ type softStat struct {
 
 func main() {
 	tsh.Main("C17", "exploration", 12*time.Minute, func(r *vlib.Run) {
-		r.Rule("RunT calls with Params.Deadline 0.4 / 0.7 / 1.2 / 2 / 3 s ahead and 1-6 scripts each, mixing foreground commands that block for ever (die on the interrupt), trap the interrupt and exit, ignore the interrupt (must be killed), exit at about the moment the context expires, scripts that finish early, scripts with SIGINT-terminable background jobs, and scripts blocked in 'wait' for a background job that never ends. Evaluations = scripts run; distinct non-trivial = distinct (deadline distance, multiset of script kinds) cases containing at least one blocked script.")
-		r.Assume("grace = max(100 ms, (deadline - start)/20) as documented in RunT; eps = 20 ms for the difference between the harness' and RunT's reading of the clock; lateness (soft bounds, slack 150 ms) is judged only in cases whose calibration goroutine and calibration helper were never more than 30 ms late, and is a violation only when the same bound is breached in >= 3 quiet cases and >= 80% of the quiet cases exercising it; a regression that makes cleanup late by less than 150 ms is not detected")
+		r.Rule("RunT calls with Params.Deadline 0.4 / 0.7 / 1.2 / 2 / 3 / 5 / 8 s ahead (round-robin) and 1-6 scripts each, mixing foreground commands that block for ever (die on the interrupt), trap the interrupt and exit, ignore the interrupt (must be killed), exit at about the moment the context expires, scripts that finish early, scripts with SIGINT-terminable background jobs, and scripts blocked in 'wait' for a background job that never ends. Evaluations = scripts run; distinct non-trivial = distinct (deadline distance, multiset of script kinds) cases containing at least one blocked script.")
+		r.Assume("grace = max(100 ms, (deadline - start)/20) as documented in RunT; eps = 20 ms for the difference between the harness' and RunT's reading of the clock; lateness (soft bounds, slack 150 ms) is judged only in cases whose calibration goroutine and calibration helper were never more than 30 ms late, and is a violation only when the same bound is breached, for one deadline distance, in >= 3 quiet cases and >= 80% of the quiet cases exercising it at that distance; a regression that makes cleanup late by less than 150 ms is not detected")
 		base := vlib.Scratch()
 		rng := r.Rand("cases")
-		ncases := r.Pick(16, 220)
-		distances := []time.Duration{400 * time.Millisecond, 700 * time.Millisecond, 1200 * time.Millisecond, 2 * time.Second, 3 * time.Second}
+		ncases := r.Pick(42, 280)
+		// grace is 100 ms up to a 2 s distance and 5% of the distance beyond: both regimes are needed
+		distances := []time.Duration{400 * time.Millisecond, 700 * time.Millisecond, 1200 * time.Millisecond, 2 * time.Second, 3 * time.Second, 5 * time.Second, 8 * time.Second}
 		var mu sync.Mutex
 		seen := map[string]int{}
 		soft := map[string]*softStat{}
@@ -84,7 +85,7 @@ func main() {
 		}
 		var jobs []job
 		for i := 0; i < ncases; i++ {
-			jobs = append(jobs, job{idx: i, dist: distances[rng.Intn(len(distances))], seed: rng.Int63()})
+			jobs = append(jobs, job{idx: i, dist: distances[i%len(distances)], seed: rng.Int63()})
 		}
 		runCase := func(jb job) {
 			crng := rand.New(rand.NewSource(jb.seed))
@@ -201,6 +202,8 @@ func main() {
 				if !isQuiet {
 					return
 				}
+				// judged per deadline distance: a defect may only show in one grace regime
+				name = fmt.Sprintf("%s@%v", name, jb.dist)
 				mu.Lock()
 				st := soft[name]
 				if st == nil {
@@ -306,15 +309,15 @@ func main() {
 				r.Sample(map[string]any{"kind": "case", "deadline_distance": jb.dist.String(), "scripts": specs, "max_calibration_lateness": time.Duration(atomic.LoadInt64(&maxLate)).String()})
 			}
 		}
-		vlib.Parallel(len(jobs), 4, func(i int) { runCase(jobs[i]) })
+		vlib.Parallel(len(jobs), 8, func(i int) { runCase(jobs[i]) })
 		r.Set("cases", ncases)
 		r.Set("cases_quiet", atomic.LoadInt64(&quiet))
 		r.Set("cases_noisy_soft_bounds_skipped", atomic.LoadInt64(&noisy))
 		softOut := map[string]any{}
 		for name, st := range soft {
 			softOut[name] = map[string]any{"quiet_cases": st.quiet, "breached": st.breached, "worst": st.worst.String()}
-			if st.quiet < 5 {
-				r.Set("soft_bound_"+name, "inconclusive: fewer than 5 quiet cases")
+			if st.quiet < 4 {
+				r.Set("soft_bound_"+name, "inconclusive: fewer than 4 quiet cases")
 				continue
 			}
 			if st.breached >= 3 && st.breached*5 >= st.quiet*4 {
